@@ -381,7 +381,13 @@ func nickRun(e *Env) {
 			if !chainOK(z) {
 				z = fmt.Sprintf("tk%dq", uniq)
 			}
-			c.Nick(z)
+			// (an application may also word the request itself: what the server
+			// refuses is answered the same way)
+			if x.arg%3 == 0 {
+				c.Raw("NICK " + z)
+			} else {
+				c.Nick(z)
+			}
 			ln, ok := next(10 * time.Minute)
 			if !ok || ln != "NICK "+z {
 				e.Violation("harness", "expected NICK %s, got %q", z, ln)
@@ -709,6 +715,10 @@ func regRun(e *Env) {
 	}
 	discs := 0
 	c.HandleFunc(client.DISCONNECTED, func(*client.Conn, *client.Line) { discs++ })
+	earlyCmd := sslMode != 1 && g.Pct(20)
+	if earlyCmd {
+		c.HandleFunc(client.REGISTER, func(c *client.Conn, l *client.Line) { c.Join("#early") })
+	}
 	wantIdent, wantName := ident, name
 	if wantIdent == "" {
 		wantIdent = "goirc"
@@ -882,6 +892,24 @@ func regRun(e *Env) {
 		if strings.Join(got, "\n") != strings.Join(wantReg, "\n") {
 			e.Violation("registration-lines", "connection %d: the client opened with %q, want exactly %q", conn, got, wantReg)
 			return
+		}
+		if earlyCmd {
+			// the application's REGISTER handler sends a command of its own before
+			// the welcome: the server says so and carries on with the registration
+			ln, ok := p.recvFor(5 * time.Minute)
+			for ok && strings.HasPrefix(ln, "PONG :cookie-") {
+				// (the answer to the PING this server sent on accepting the connection)
+				got = append(got, ln)
+				ln, ok = p.recvFor(5 * time.Minute)
+			}
+			got = append(got, ln)
+			e.Check()
+			if !ok || ln != "JOIN #early" {
+				e.Violation("registration-lines", "connection %d: after the registration the REGISTER handler's JOIN #early was expected, got %q", conn, ln)
+				return
+			}
+			p.send(":irc.sim 451 * :You have not registered")
+			e.S.Count("probe.server-answers-an-early-command-with-451")
 		}
 		if capNeg {
 			p.send(":irc.sim CAP * LS :")
@@ -1455,7 +1483,18 @@ func capRun(e *Env) {
 			l.SendLine(":irc.sim 001 me :Welcome me!u@h")
 			if laterDisable && reply == 0 && len(inter) > 0 {
 				cp := inter[g.S.Choose(len(inter))]
-				l.SendLine(":irc.sim CAP " + capID() + " ACK :-" + cp)
+				ack := "-" + cp
+				if len(inter) > 1 && g.S.Choose(2) == 0 {
+					// one acknowledgement with both signs: the capability taken away
+					// named first, another one (held already, so nothing starts)
+					// confirmed after it - each name carries its own sign
+					other := inter[g.S.Choose(len(inter))]
+					if other != cp && other != "sasl" {
+						ack += " " + other
+						e.S.Count("probe.acknowledgement-with-both-signs")
+					}
+				}
+				l.SendLine(":irc.sim CAP " + capID() + " ACK :" + ack)
 				enabled[cp] = false
 				e.S.Count("probe.later-ack-disables-capability")
 				// an acknowledgement that takes a capability away starts nothing,
